@@ -1473,6 +1473,30 @@ silent_all("early-return-to-else", [
 	}"""},
 ], "early returns turned into an if/else chain", ["C01", "C05", "C06", "C20"])
 
+silent_all("rename-fields-and-methods", [
+    {"file": "httpgrpc/server.go", "old": "headersSent", "new": "hdrSent", "all": True},
+    {"file": "httpgrpc/server.go", "old": "writeFailed", "new": "wFailed", "all": True},
+    {"file": "httpgrpc/client.go", "old": "doHttpCall", "new": "runCall", "all": True},
+    {"file": "httpgrpc/client.go", "old": "rErr", "new": "termErr", "all": True},
+    {"file": "inprocgrpc/in_process.go", "old": "finish(", "new": "complete(", "all": True},
+    {"file": "inprocgrpc/in_process.go", "old": "sendClosed", "new": "halfClosed", "all": True},
+    {"file": "inprocgrpc/in_process.go", "old": "onDone", "new": "signalDone", "all": True},
+], "private fields and methods renamed", ["C01", "C02", "C03", "C04", "C05", "C07", "C08", "C11", "C20"])
+silent_all("rename-generator-locals", [
+    {"file": "cmd/protoc-gen-grpchan/protoc-gen-grpchan.go", "old": "streamCount", "new": "nStreams", "all": True},
+    {"file": "cmd/protoc-gen-grpchan/protoc-gen-grpchan.go", "old": "makeTemplate", "new": "tmpl", "all": True},
+], "generator locals renamed", ["C19", "C05"])
+silent_all("rename-registry-internals", [
+    {"file": "server.go", "old": "type service struct", "new": "type entry struct"},
+    {"file": "server.go", "old": "map[string]service", "new": "map[string]entry"},
+    {"file": "server.go", "old": "service{desc: desc, handler: h}", "new": "entry{desc: desc, handler: h}"},
+], "registry entry type renamed", ["C15", "C12", "C01"])
+silent_all("cloner-rename", [
+    {"file": "inprocgrpc/cloner.go", "old": "funcCloner", "new": "fnCloner", "all": True},
+    {"file": "inprocgrpc/cloner.go", "old": "copyFn", "new": "cp", "all": True},
+    {"file": "inprocgrpc/cloner.go", "old": "cloneFn", "new": "cl", "all": True},
+], "cloner internals renamed", ["C18", "C06"])
+
 
 def main():
     if os.path.isdir(OUT):
